@@ -23,17 +23,17 @@ Proof. witness [0; 1] [1; 0]. Qed.
 (* SamplingOperator on rn(1, weighting=2) (no cell_volume attribute => cv = 1) *)
 Lemma sampling_weighted_refuted : identity_fails (LSampling [2] [0%nat] false 1).
 Proof. witness [1] [1]. Qed.
-(* ... and on uniform_discr(0, 2, 3, nodes_on_bdry=True): weights (1/2, 1, 1/2), cv = 1 *)
-Lemma sampling_bdry_refuted : identity_fails (LSampling [1/2; 1; 1/2] [0%nat] false 1).
+(* ... and on uniform_discr(0, 1, 3, nodes_on_bdry=True): cell volume 1/2, weights (1/4, 1/2, 1/4) *)
+Lemma sampling_bdry_refuted : identity_fails (LSampling [1/4; 1/2; 1/4] [0%nat] false (1/2)).
 Proof. witness [1; 0; 0] [1]. Qed.
 Lemma flatten_weighted_refuted : identity_fails (LFlatten [2] [0%nat] 1).
 Proof. witness [1] [1]. Qed.
 (* ComponentProjection on ProductSpace(rn(1), rn(1), weighting=[2, 3]) *)
 Lemma proj_weighted_refuted : identity_fails (LProj [[1]; [1]] [2; 3] 0).
 Proof. witness [1; 0] [1]. Qed.
-(* PartialDerivative (forward, zero padding) on uniform_discr(0, 2, 3, nodes_on_bdry=True) *)
+(* PartialDerivative (forward, zero padding) on uniform_discr(0, 1, 3, nodes_on_bdry=True) *)
 Lemma pderiv_bdry_refuted :
-  identity_fails (LPDeriv [1/2; 1; 1/2] [1/2; 1; 1/2] [3%nat] 0 Forward PConstant 1).
+  identity_fails (LPDeriv [1/4; 1/2; 1/4] [1/4; 1/2; 1/4] [3%nat] 0 Forward PConstant (1/2)).
 Proof.
   exists [0; 1; 0], [1; 0; 0]. split; [reflexivity | split; [reflexivity|]].
   cbn. unfold cinner, wdot, dot. cbn. lra.
